@@ -5,10 +5,21 @@ diffs the two output streams. Imports only Mathlib-free model files.
 -/
 import TLX.Py
 import TLX.Quic.PktNum
+import TLX.CipherSuite
 open TLX
 
 structure DState where
   pn : Quic.PktNum.Table := Quic.PktNum.Table.init
+
+def asciiStr (l : List Nat) : String := String.ofList (l.map Char.ofNat)
+
+def renderVal : CipherSuite.Val → String
+  | .tup c f => s!"tup:{asciiStr c}:{f}"
+  | .cls c => s!"cls:{asciiStr c}"
+  | .int n => s!"int:{n}"
+
+def renderParams (ps : CipherSuite.Params) : String :=
+  ";".intercalate (ps.map fun e => s!"{asciiStr e.1}={renderVal e.2}")
 
 def parsePType : String → Option Quic.PktNum.PType
   | "i" => some .initial | "h" => some .handshake | "z" => some .zeroRtt | "o" => some .oneRtt
@@ -16,6 +27,10 @@ def parsePType : String → Option Quic.PktNum.PType
 
 def stepLine (s : DState) (line : String) : DState × String :=
   match (line.trimAscii.toString.splitOn " ").filter (· ≠ "") with
+  | ["suite", code] =>
+    match code.toNat? with
+    | some c => (s, match CipherSuite.resolve c with | none => "none" | some ps => renderParams ps)
+    | none => (s, "bad-op")
   | ["pnreset"] => ({ s with pn := Quic.PktNum.Table.init }, "ok")
   | ["pn", srv, ty, n, trunc] =>
     match parsePType ty, n.toNat?, trunc.toNat? with
